@@ -30,9 +30,9 @@ HOSTS6 = ["::1", "fe80::1", "fe80::2", "2001:db8::1", "2001:db8:1::1"]
 MASKS = ["", "", "", "/8", "/16", "/24", "/31", "/32", "/-8", "/-1", "/0", "/64", "/128", "/-64", "/16/-8"]
 TAGKEYS = ["tag", "service", "mark", "generated"]
 TAGS = ["a", "b", "c"]
-PROTOS = ["tcp", "udp", "sctp", "other", "TCP"]
+PROTOS = ["tcp", "udp", "sctp", "other"]
 DURS = ["5m", "1h", "30s", "1h30m", "0s", "1ms", "2h"]
-ABST = ["1200", "120000", "2359", '2024-01-02 1504', '2024-01-02 150405', '2030-06-01 0000']
+ABST = ['2024-01-02 1504', '2024-01-02 150405', '2030-06-01 0000', '2024-01-02 1505']
 REGEX = ["x", "y", "z", "foo", "a b", "x+", "[0-9]"]
 CONVS = ["", "", "", "", ".b64", ".gz"]
 SUBS = ["a", "b"]
@@ -248,10 +248,12 @@ def size(e):
     return 1 + sum(size(c) for c in e[1])
 
 
-def dnf_cost(e):
-    """(P, N): upper estimates of the number of conjuncts of the normal form of e and of NOT e.
-    Negating a disjunction multiplies (exponential by construction of the normal form, see C14);
-    the C03 generator stays where the normal form is of moderate size."""
+def dnf_form(e, worst):
+    """(n, c): upper bound of the number of conjuncts / of conditions per conjunct of the (uncleaned)
+    normal form the code builds for e; worst[0] collects the largest n of any sub-expression.
+    Negation multiplies: NOT of n conjuncts with c conditions each has up to c^n conjuncts (exponential
+    by construction of the normal form, see C14); the C03 generator stays where every intermediate
+    form is of moderate size."""
     k = e[0]
     if k == "atom":
         t = e[1]
@@ -261,33 +263,36 @@ def dnf_cost(e):
         val = t.split(":", 1)[1] if ":" in t else ""
         items = val.count(",") + 1
         if key in ("sort", "limit", "group"):
-            return 1, 1
+            return 0, 0
         two = 2 if key in ("port", "bytes", "host", "data") else 1
         c = {"protocol": 3, "tag": 1, "service": 1, "mark": 1, "generated": 1, "chost": 1, "shost": 1, "host": 1,
              "cdata": 1, "sdata": 1, "data": 1}.get(key, 2)
-        alts = items * two
-        return alts, min(c ** alts, 10 ** 9)
-    if k == "not":
-        p, n = dnf_cost(e[1])
-        return n, p
-    ps, ns = zip(*[dnf_cost(c) for c in e[1]])
-    prod = lambda xs: min(10 ** 9, __import__("functools").reduce(lambda a, b: a * b, xs, 1))
-    if k == "or":
-        return min(sum(ps), 10 ** 9), prod(ns)
-    if k == "then":
-        # a negated sequence of n data filters has n alternatives
-        return prod(ps), min(sum(ns) + len(ns), 10 ** 9)
-    return prod(ps), min(sum(ns), 10 ** 9)
+        r = (items * two, c)
+    elif k == "not":
+        n, c = dnf_form(e[1], worst)
+        # every condition inverts to one conjunct (a protocol condition to one with 3, a sequence of l to l)
+        r = (min(10 ** 9, max(c, 1) ** n) if n else 0, max(n, 3))
+    else:
+        fs = [f for f in (dnf_form(c, worst) for c in e[1]) if f[0]]
+        if not fs:
+            r = (0, 0)
+        elif k == "or":
+            r = (min(10 ** 9, sum(f[0] for f in fs)), max(f[1] for f in fs))
+        else:
+            n = 1
+            for f in fs:
+                n = min(10 ** 9, n * f[0])
+            # THEN concatenates sequences pairwise inside a conjunct
+            cc = sum(f[1] for f in fs) if k == "and" else max(1, sum(f[1] for f in fs)) * 2
+            r = (n, cc)
+    worst[0] = max(worst[0], r[0])
+    return r
 
 
 def max_cost(e):
-    p, n = dnf_cost(e)
-    m = max(p, n) if e[0] == "not" else p
-    if e[0] == "not":
-        return max(p, max_cost(e[1]))
-    if e[0] == "atom":
-        return p
-    return max([p] + [max_cost(c) for c in e[1]])
+    worst = [0]
+    dnf_form(e, worst)
+    return worst[0]
 
 
 # ------------------------------------------------------------------ execution
